@@ -47,15 +47,35 @@ def run(ctx: Context, col) -> None:
         "state_to_index": ("leaf", "problem.state_to_index"),
     })
     I.axis_sizes = {"state": {nS}, "act": {nA}, "ev": {nE}}
+    # `if self.X is not None: return self.X` in front of the construction, X assigned further down: a result stored by an earlier call is
+    # handed back.  The term rules are decided for a first call (X still None); R17.3 reports the return that skips this call's check.
+    stored_attr = None
+    params_ = {a.arg for a in fn.args.args[1:]}
+    for st_ in fn.body:
+        if isinstance(st_, ast.If) and st_.body and isinstance(st_.body[-1], ast.Return) and isinstance(st_.body[-1].value, ast.Attribute) \
+                and isinstance(st_.body[-1].value.value, ast.Name) and st_.body[-1].value.value.id == "self" \
+                and not any(isinstance(n_, ast.Name) and n_.id in params_ for n_ in ast.walk(st_.test)):
+            x_ = st_.body[-1].value.attr
+            if any(isinstance(n_, ast.Attribute) and isinstance(n_.ctx, ast.Store) and n_.attr == x_ and isinstance(n_.value, ast.Name) and n_.value.id == "self"
+                   for n_ in ast.walk(fn)):
+                stored_attr = x_
+                from ..terms import NONE as _NONE
+                I.attrs[x_] = _NONE
     TOL = S("TOL")
     try:
         t = I.call_method("build_transition_and_reward_matrices", [TOL])
     except Unsupported as e:
         raise AnalysisError(f"Problem.build_transition_and_reward_matrices: {e}") from e
+    construct = "Problem.build_transition_and_reward_matrices"
+    stored_return = S(f"self.{stored_attr}") if stored_attr else None
+    if t[0] == "ite" and (t[2][0] == "tuple") != (t[3][0] == "tuple"):
+        # one branch hands back something that is not built in this call (e.g. matrices stored by an earlier call): the term rules
+        # below are decided for the branch that builds, and R17.3 reports the return that bypasses this call's row-sum check
+        stored_return = t[3] if t[2][0] == "tuple" else t[2]
+        t = t[2] if t[2][0] == "tuple" else t[3]
     if t[0] != "tuple" or len(t[1]) != 2:
         raise AnalysisError("matrix builder does not return (P, R)")
     Pret, Rret = t[1]
-    construct = "Problem.build_transition_and_reward_matrices"
 
     def leaf(name, s, a, e):
         return ("app", name, (I.elem(SS, s), I.elem(AS, a), I.elem(ES, e)))
@@ -162,7 +182,10 @@ def run(ctx: Context, col) -> None:
             if "state" in pos and "action" in pos:
                 msg_ok = pos["state"][1] == K(1) and pos["action"][1] == K(0)
                 loc_ok = pos["state"][0] == unr and pos["action"][0] == unr
-        if not dom_ok:
+        if stored_return is not None and not dom_ok:
+            ok3, why3 = False, (f"one return hands back `{show_norm(stored_return)[:60]}`, which is not built in this call, without this call's row-sum check: "
+                                "matrices stored by an earlier call with a looser tolerance are returned where this call must raise ValueError")
+        elif not dom_ok:
             ok3, why3 = False, "the row-sum check does not dominate the normalisation / return"
         elif not msg_ok:
             ok3, why3 = False, "the error message does not name the offending pair as `state {<axis-1 index>}` and `action {<axis-0 index>}`"
